@@ -72,12 +72,14 @@ def run(tier, seed):
             S.handle_skip(rep, scn, why, PIDS)
             continue
         items.append((scn, tr))
+        if "tw" in tr and any(tr["tw"][k] != tr["fin"][k] for k in ("pred", "order", "lab")):
+            rep.note_drift("empty unlabeled set: predecessors / conquest order / tied labels differ from the supervised twin (equally good offers ordered differently)")
     rep.cov["empty_unlabeled_twins"] = twins
     if items:
         s0, t0 = next(((s, t) for s, t in items if s["U"] and s["mode"] == "metric"), items[0])
         rep.sample({"scenario": {k: (v if k not in ("Z", "D") else "...") for k, v in s0.items()}, "W": t0["W"], "L": t0["L"], "fin": t0["fin"]})
         S.judge(rep, items, "c15", PIDS)
-    rep.cov["rule"] = "all weight matrices / labelings of the design model with unlabeled nodes, each run through SemiSupervisedOPF.fit; float data with 0..5 unlabeled samples incl. far outliers and bridging points, index arrays whose identifiers overlap the unlabeled positions; empty-unlabeled runs compared with SupervisedOPF.fit in one rank universe"
+    rep.cov["rule"] = "all weight matrices / labelings of the design model with unlabeled nodes, each run through SemiSupervisedOPF.fit; float data with 0..5 unlabeled samples incl. far outliers and bridging points, index arrays whose identifiers overlap the unlabeled positions; empty-unlabeled runs compared with SupervisedOPF.fit in one rank universe (prototype set and every cost; labels when the weights are tie-free; other differences are drift)"
     rep.assumptions = ["TLC", "order-embedding of floats is exact", "with pre-computed distances the unlabeled rows sit at positions n_labeled.. of the matrix (the API has no index array for them)"]
     return rep.finish()
 
